@@ -32,19 +32,20 @@ Fixpoint crit_of {S E} (m : meth S E) (ns : nat) : S -> E -> bool :=
   match m with
   | MAll => fun _ _ => true
   | MBand _ c => c
-  | MBox bs cra crab cdec =>
-      fun s e => (if (Z.of_nat ns >? bs)%Z then crab s e else cra s e) && cdec s e
+  | MBox bs cra crab cdec => fun s e => cra s e && cdec s e
   | MPsi c => fun _ e => c e
   | MPair c => c
   | MAnd a b => fun s e => crit_of a ns s e && crit_of b ns s e
   end.
 
 (* side conditions under which a method tree exists and runs: PsiFunc is
-   constructible for exactly one source; the batch size is positive *)
+   constructible for exactly one source; the batch size is positive and the two
+   textual copies of the RA mask of SpatialBox (batched / unbatched path) are the
+   same criterion (proved for the translated formulas in P_SelectNum.box_ra_copies) *)
 Fixpoint wf_meth {S E} (m : meth S E) (ns : nat) : Prop :=
   match m with
   | MPsi _ => ns = 1%nat
-  | MBox bs _ _ _ => (0 < bs)%Z
+  | MBox bs cra crab _ => (0 < bs)%Z /\ (forall s e, crab s e = cra s e)
   | MAnd a b => wf_meth a ns /\ wf_meth b ns
   | _ => True
   end.
@@ -80,3 +81,7 @@ Definition inc_ok (ns ne : nat) (inc : option tbl) : Prop :=
 Definition cix {S E} (m : meth S E) (inc : option tbl) (srcs : list S) (evs : list E)
            (k j : nat) : bool :=
   inc_has inc k j && cidx (crit_of m (length srcs)) srcs evs k j.
+
+(* instances used by the non-vacuity examples of props/Prop_C05.v *)
+Definition ex_c (s e : Z) : bool := (Z.abs (e - s) <? 3)%Z.
+Definition ex_rev (l : list Z) : list Z := rev (map Z.of_nat (seq 0 (length l))).
